@@ -1097,7 +1097,8 @@ func (n *network) startAcceptor(a gen.AcceptorOptions) (*acceptor, error) {
 		max_message_size: a.MaxMessageSize,
 		atom_mapping:     make(map[gen.Atom]gen.Atom),
 	}
-	if a.Cookie == "" {
+	acceptor.cookie = a.Cookie
+	if acceptor.cookie == "" {
 		acceptor.cookie = n.cookie
 	}
 	for k, v := range a.AtomMapping {
